@@ -17,6 +17,10 @@ as in aggregate).  Failure keys of the zero-key / hash-colliding families use th
 'window-zero-keys' / 'window-hash-colliding-keys'.
 Histories (op 'repeat', see relational_common.repeat_cases) and stdev precision against an exact
 Fraction reference (op 'precision') are run for window() as C12 runs them for aggregate().
+Sequence-style apply functions (op 'seqapply': len(), indexing, slicing, reversed(), two passes over the
+argument) and exact means of big-int / Fraction / Decimal / float columns (op 'exactmean') are run for
+window() as in C12: every row gets what the function / Python's sum/len gives on the plain list of its
+group's values, and window agrees with aggregate() called with the same arguments.
 """
 from relational_common import *  # noqa
 
@@ -28,6 +32,8 @@ def cases(tier, seed):
     yield from agg_cases(tier, OP, heavy=True)
     yield from repeat_cases(tier, OP, variants=['ext', 'view-name'] if tier == 'quick' else None)
     yield from precision_cases(tier)
+    yield from seq_apply_cases(tier, OP)
+    yield from exactmean_cases(tier)
 
 
 def descr_of(case):
@@ -62,9 +68,114 @@ def eval_precision(case):
     return fails
 
 
+def eval_seqapply(case):
+    descr = f"window(over={case['mode']} x{case['nk']}, apply=<functions that use their argument as a list>) on rows(keys..., v)={case['rows']}"
+    try:
+        s = SeqApplySetup(case)
+        s2 = SeqApplySetup(case)
+    except Exception as e:
+        return [Fail(f'{PID}:setup:raises:{type(e).__name__}', f'{descr}: building the table raised {e!r}', None, repr(e))]
+    before = s.snapshot()
+    site = agg_site(OP, case)
+    fails = []
+    expected = seq_apply_expected(OP, s.keys, s.vals)
+    try:
+        res = s.T.window(s.over, **s.kwargs)
+    except Exception as e:
+        name = s.running[0]
+        cap = SEQ_APPLY[name][1] if name else 'outside-the-function'
+        return [Fail(f'{PID}:{site}:apply-sequence-argument:{cap}:raises:{type(e).__name__}',
+                     f'{descr}: raised {e!r}' + (f' while apply function {name!r} was using its argument as a list ({cap})' if name else ''),
+                     expected, repr(e), f'{PID}:{OP}:apply')]
+    try:
+        m = truthful(res)
+        if m:
+            fails.append(Fail(f'C03:{OP}:truthful', f'{descr}: {m}', None, m))
+        n, nk = len(s.keys), s.nk
+        if len(res) != n or any(len(c._underlying) != n for c in res.cols()):
+            return fails + [Fail(f'{PID}:{site}:row-count', f'{descr}: {len(res)} rows for an input of {n} rows', n, len(res), f'{PID}:{OP}:expand:post')]
+        check_seq_apply(PID, OP, site, res, expected, fails, descr)
+        # window = aggregate expanded back to the rows (same functions, fresh table)
+        try:
+            agg = s2.T.aggregate(s2.over, **s2.kwargs)
+        except Exception as e:
+            return fails + [Fail(f'{PID}:aggregate:apply-sequence-argument:raises:{type(e).__name__}', f'{descr}: the companion aggregate() call raised {e!r}',
+                                 None, repr(e))]
+        agg_keys = [tuple(list(c._underlying)[i] for c in agg.cols()[:nk]) for i in range(len(agg))]
+        for name in SEQ_APPLY:
+            col, acol = out_column(res, f'f_{name}'), out_column(agg, f'f_{name}')
+            if col is None or acol is None:
+                continue
+            via = []
+            for key in s.keys:
+                hits = [acol[g] for g, k in enumerate(agg_keys) if k == key]
+                via.append(hits[0] if len(hits) == 1 else ('<no unique aggregate row for key>', key))
+            if not all(close(a, b) if isinstance(b, float) or b is None else a == b for a, b in zip(col, via)):
+                fails.append(Fail(f'{PID}:{site}:apply-sequence-argument:differs-from-aggregate',
+                                  f'{descr}: column f_{name} differs from aggregate() looked up through each row\'s key', via, col,
+                                  f'{PID}:lemma:window=aggregate-join-rows'))
+                break
+    except Exception as e:
+        fails.append(Fail(f'{PID}:{site}:malformed-result', f'{descr}: result could not be read: {e!r}', None, repr(e)))
+    if s.snapshot() != before:
+        fails.append(Fail(f'{PID}:{site}:input-modified', f'{descr}: the table or a key vector changed', before, s.snapshot()))
+    return fails
+
+
+def eval_exactmean(case):
+    fails = []
+    fam = case['family']
+    vals = exactmean_vals(case)
+    keys, grows = exactmean_groups(case)
+    descr = f"mean of {vals!r} ({fam}, {case['layout']})"
+    try:
+        t = Table([Vector(list(keys), name='g'), Vector(list(vals), name='v')])
+    except Exception as e:
+        if all(x is None for x in vals):
+            return []
+        return [Fail(f'{PID}:setup:raises:{type(e).__name__}', f'{descr}: building the table raised {e!r}', None, repr(e))]
+    try:
+        res = t.window(over='g', mean_over='v')
+        col = out_column(res, 'v_mean')
+        m = truthful(res)
+        if m:
+            fails.append(Fail(f'C03:{OP}:truthful', f'{descr}: {m}', None, m))
+        if col is None or len(col) != len(vals):
+            return fails + [Fail(f'{PID}:{OP}:mean:{fam}:missing', f'{descr}: window(mean_over) gave column {col!r}', len(vals), col)]
+        for g, rows in enumerate(grows):
+            gv = [vals[i] for i in rows]
+            bad = [(i, mean_verdict(fam, col[i], gv)) for i in rows]
+            bad = [(i, b) for i, b in bad if b]
+            if bad:
+                i, b = bad[0]
+                fails.append(Fail(f'{PID}:{OP}:mean:{fam}:{b[0]}', f'{descr}: window(mean_over) gives {col[i]!r} in row {i}, whose group holds {gv!r}; '
+                                  f'sum/len of its non-None values is {b[1]!r}', b[1], col[i], f'{PID}:{OP}:mean:elem'))
+                break
+    except Exception as e:
+        return fails + [Fail(f'{PID}:{OP}:mean:{fam}:raises:{type(e).__name__}', f'{descr}: window(mean_over) raised {e!r}', None, repr(e), f'{PID}:{OP}:mean:elem')]
+    try:
+        agg = t.aggregate(over='g', mean_over='v')
+        acol, akeys = out_column(agg, 'v_mean'), out_column(agg, 'g')
+        via = [acol[akeys.index(k)] for k in keys]
+        def agree(a, b):
+            if isinstance(a, float) and isinstance(b, float):
+                return a == b or abs(a - b) <= MEAN_REL_TOL * max(abs(a), abs(b))
+            return type(a) is type(b) and a == b
+        if not all(agree(a, b) for a, b in zip(col, via)):
+            fails.append(Fail(f'{PID}:{OP}:mean:{fam}:differs-from-aggregate', f'{descr}: window(mean_over) = {col!r}; aggregate(mean_over) looked up through '
+                              f'each row\'s key = {via!r}', via, col, f'{PID}:lemma:window=aggregate-join-rows'))
+    except Exception as e:
+        fails.append(Fail(f'{PID}:aggregate:mean:{fam}:raises:{type(e).__name__}', f'{descr}: the companion aggregate() call raised {e!r}', None, repr(e)))
+    return fails
+
+
 def evaluate(case):
     if case['op'] == 'repeat':
         return eval_repeat(PID, case)
+    if case['op'] == 'seqapply':
+        return eval_seqapply(case)
+    if case['op'] == 'exactmean':
+        return eval_exactmean(case)
     if case['op'] == 'precision':
         return eval_precision(case)
     descr = descr_of(case)
@@ -167,9 +278,12 @@ if __name__ == '__main__':
          rule='every table of each block in `bound`: window(...) has the input row count and order, key columns unchanged, and each '
               'aggregate / apply column equals (a) the hand oracle expanded to rows and (b) aggregate(...) with the same arguments '
               'looked up through each row\'s key tuple; input unchanged; plus call histories on one table object and stdev of '
-              'large-offset values vs an exact Fraction reference (relative 1e-9), as in C12. distinct = distinct (nk, mode, rows, groups, interleaved, '
+              'large-offset values vs an exact Fraction reference (relative 1e-9), as in C12; plus apply functions that use their argument as a '
+              'list and means of big-int / Fraction / Decimal / float columns (vs Python sum/len in the element type and vs aggregate). distinct = distinct (nk, mode, rows, groups, interleaved, '
               'all-None group, None key, aggs, apply) signatures',
          bound=lambda tier: dict(agg_bound(tier, heavy=True),
                                  repeat_variants=['ext', 'view-name'] if tier == 'quick' else REPEAT_VARIANTS,
-                                 precision_families=[f for f, _ in PRECISION_FAMILIES], precision_len=[2, 4 if tier == 'quick' else 5]),
+                                 precision_families=[f for f, _ in PRECISION_FAMILIES], precision_len=[2, 4 if tier == 'quick' else 5],
+                                 seq_apply_functions=SEQ_APPLY_NAMES, exact_mean_families={f: [repr(x) for x in p] for f, p in EXACT_MEAN_FAMILIES},
+                                 exact_mean_len=[1, 3 if tier == 'quick' else 4]),
          nontrivial=nontrivial)
